@@ -89,6 +89,36 @@ theorem hdrSortedB_sound (m : List (Val × AnyVal)) (h : hdrSortedB m = true) : 
 def hdrMapOK (m : List (Val × AnyVal)) : Bool :=
   hdrElemsOK m && hdrSortedB m && decide (m.length < maxLen / 2) && decide ((encHdrMap m).length < maxLen)
 
+/-! ### `interface{}` values the codec round-trips -/
+
+/-- map keys in strictly ascending bytewise order of their encodings (the order `encodeMap` writes; any
+other order of the same pairs denotes the same Go map) -/
+def anySortedB : List (AnyVal × AnyVal) → Bool
+  | [] => true
+  | a :: l => l.all (fun b => bytesLt (encodeAny a.1) (encodeAny b.1)) && anySortedB l
+
+mutual
+/-- `confAnyB d a`: an `any` value the decoder rebuilds from its encoding with `d` container levels
+available — int64 range, strings and counts below the limits, map keys of a comparable dynamic type and in
+encoding order, tag contents a single item the structural decoder accepts. -/
+def confAnyB : Nat → AnyVal → Bool
+  | _, .int i => decide (-9223372036854775808 ≤ i ∧ i ≤ 9223372036854775807)
+  | _, .bytes b => decide (b.length < maxLen)
+  | _, .text b => decide (b.length < maxLen)
+  | d, .arr xs => decide (xs.length < maxLen ∧ 1 ≤ d) && confAnyListB (d - 1) xs
+  | d, .map ps => decide (ps.length < maxLen / 2 ∧ 1 ≤ d) && confAnyPairsB (d - 1) ps && anySortedB ps
+  | d, .tagRaw t raw => decide (t < 18446744073709551616 ∧ 1 ≤ d) &&
+      (match decode (2 * raw.length + 1) (d - 1) raw with | some (_, []) => true | _ => false)
+  | _, .bool _ => true
+  | _, .null => true
+def confAnyListB : Nat → List AnyVal → Bool
+  | _, [] => true
+  | d, x :: xs => confAnyB d x && confAnyListB d xs
+def confAnyPairsB : Nat → List (AnyVal × AnyVal) → Bool
+  | _, [] => true
+  | d, (k, v) :: ps => k.comparable && confAnyB d k && confAnyB d v && confAnyPairsB d ps
+end
+
 mutual
 /-- schema is in the proved fragment -/
 def Schema.inFragment : Schema → Bool
@@ -111,6 +141,7 @@ def Schema.inFragment : Schema → Bool
   | .cert => true
   | .timestamp => true
   | .label => true
+  | .any => true
   | _ => false
 def Fields.inFragment : Fields → Bool
   | .nil => true
@@ -158,6 +189,7 @@ def wconf : Nat → Nat → Schema → Val → Bool
     | .mapOf ks vs, .map ps => decide (1 ≤ d ∧ 2 * ps.length < maxLen) && wconfPairs g (d - 1) ks vs ps
     | .timestamp, .time z _ => z || decide (1 ≤ d)
     | .label, _ => true
+    | .any, .any a => confAnyB d a
     | .raw, .raw b =>
       match decode (2 * b.length + 1) d b with
       | some (_, []) => true
@@ -205,6 +237,7 @@ def conf (ok : CertOracle) : Nat → Nat → Schema → Val → Bool
     | .cert, .cert der => ok der                       -- the DER string is one x509.ParseCertificate accepts (oracle)
     | .timestamp, .time z u => decide ((z = true → u = 0) ∧ -9223372036854775808 ≤ u ∧ u ≤ 9223372036854775807)
     | .label, l => labelOK l
+    | .any, .any a => confAnyB d a
     | .raw, .raw b =>
       -- cbor.RawBytes holds exactly one well-formed item
       match decode (2 * b.length + 1) d b with
